@@ -112,10 +112,16 @@ static Result runHistory(verif::Run& run, const Case& c, const std::vector<int>&
     try {
         for (int o : hist) {
             switch (o) {
-                case OLockP: gb.lock(s, Motion::Position); G.lockLevel = 0; { Vector q = gb.getQAsVector(s); G.lockVal.assign(&q[0], &q[0] + nq); } break;
+                case OLockP: { Vector q0 = gb.getQAsVector(s); gb.lock(s, Motion::Position); G.lockLevel = 0; Vector q = gb.getQAsVector(s); G.lockVal.assign(&q[0], &q[0] + nq);
+                    // documented immediate effect: q unchanged, u of this mobilizer set to zero in the state
+                    for (int i = 0; i < nq; ++i) if (memcmp(&q[i], &q0[i], sizeof(double))) fail("lock(P)-changed-q", "q[" + std::to_string(i) + "]");
+                    Vector u1 = gb.getUAsVector(s); for (int i = 0; i < nu; ++i) if (u1[i] != 0) fail("lock(P)-did-not-zero-u-immediately", "u[" + std::to_string(i) + "]=" + verif::fmtd(u1[i])); } break;
                 case OLockV: gb.lock(s, Motion::Velocity); G.lockLevel = 1; { Vector u = gb.getUAsVector(s); G.lockVal.assign(&u[0], &u[0] + nu); } break;
                 case OLockA: gb.lock(s, Motion::Acceleration); G.lockLevel = 2; G.lockVal.clear(); break;
-                case OLockAtP: { Vector q = genericQ(M, s, S.gi, 2); gb.lockAt(s, q, Motion::Position); G.lockLevel = 0; G.lockVal.assign(&q[0], &q[0] + nq); } break;
+                case OLockAtP: { Vector q = genericQ(M, s, S.gi, 2); gb.lockAt(s, q, Motion::Position); G.lockLevel = 0; G.lockVal.assign(&q[0], &q[0] + nq);
+                    Vector q1 = gb.getQAsVector(s), u1 = gb.getUAsVector(s);
+                    for (int i = 0; i < nq; ++i) if (memcmp(&q[i], &q1[i], sizeof(double))) fail("lockAt(P)-did-not-set-q-immediately", "q[" + std::to_string(i) + "]");
+                    for (int i = 0; i < nu; ++i) if (u1[i] != 0) fail("lockAt(P)-did-not-zero-u-immediately", "u[" + std::to_string(i) + "]=" + verif::fmtd(u1[i])); } break;
                 case OUnlock: gb.unlock(s); G.lockLevel = -1; G.lockVal.clear(); break;
                 case OMotionDisable: if (S.hasMotion) { S.motion.disable(s); G.motionEnabled = false; } break;
                 case OMotionEnable: if (S.hasMotion) { S.motion.enable(s); G.motionEnabled = true; } break;
